@@ -805,6 +805,8 @@ fn op_enum_map(c: &Value, ev: &mut Map<String, Value>) -> Result<(), String> {
     let lo = c["lo"].as_u64().unwrap_or(0) as u32;
     let hi = c["hi"].as_u64().unwrap_or(65535) as u32;
     let ctx: Option<u16> = c["ctx"].as_u64().map(|x| x as u16);
+    let surplus: Vec<u8> = if c["surplus"].is_null() { Vec::new() } else { json_bytes(&c["surplus"])? };
+    let f6: u8 = c["f6"].as_u64().map(|x| x as u8).unwrap_or(1);
     let o = guarded(|| {
         let mut acc = Vec::new();
         let mut tested = 0u64;
@@ -833,16 +835,20 @@ fn op_enum_map(c: &Value, ev: &mut Map<String, Value>) -> Result<(), String> {
                     })
                 }
                 "MessageType" | "ProxyAuthenType" | "ErrorType" | "AttributeType" => {
-                    let rec = match field {
-                        "MessageType" => one_avp_record(0, &x.to_be_bytes()),
-                        "ProxyAuthenType" => one_avp_record(29, &x.to_be_bytes()),
-                        "ErrorType" => one_avp_record(1, &[0, 1, (x >> 8) as u8, x as u8]),
+                    // `surplus`: extra payload octets behind the code (ignored by the layout for the fixed-size
+                    // kinds, the optional text for a Result Code); `f6`: the low six bits of the record's first
+                    // octet (M clear, reserved bits set -- all ignored on input)
+                    let mut rec = match field {
+                        "MessageType" => { let mut p = x.to_be_bytes().to_vec(); p.extend_from_slice(&surplus); one_avp_record(0, &p) }
+                        "ProxyAuthenType" => { let mut p = x.to_be_bytes().to_vec(); p.extend_from_slice(&surplus); one_avp_record(29, &p) }
+                        "ErrorType" => { let mut p = vec![0, 1, (x >> 8) as u8, x as u8]; p.extend_from_slice(&surplus); one_avp_record(1, &p) }
                         _ => {
                             let mut p = vec![0u8, 1, 0, 1];
                             p.extend_from_slice(&[65u8; 28]);
                             one_avp_record(x, &p)
                         }
                     };
+                    rec[0] = (rec[0] & 0xc0) | f6;
                     // ctx absent: the record alone through AVP::try_read_greedy; ctx = a message-type code: the
                     // record inside a whole control message behind that Message Type (ctx 0: the record is the
                     // message's first and only AVP), through Message::try_read_validate -- an enumerated code must
